@@ -79,6 +79,7 @@ def grammar_files():
         "errs": v + "/corpus/errs.pest",
         "ws": v + "/corpus/ws.pest",
         "rec": v + "/corpus/rec.pest",
+        "look": v + "/corpus/look.pest",
         "cycles": v + "/corpus/cycles.pest",
         "cycles2": v + "/corpus/cycles2.pest",
         "optim": v + "/corpus/optim.pest",
@@ -662,7 +663,7 @@ def run(tier, seed):
         "evaluations": evaluations + n_var_runs * len(bins),
         "distinct_nontrivial": len(distinct),
         "rule": ("clause 1: one evaluation = one simulated run = a fresh generator process (ASLR off, envshim preloaded) executing a seeded history of 1-7 expansions (one run in 25: 12-41 expansions) "
-                 "(grammar from an 11-grammar corpus, one of 5 ill-formed grammars, or a grammar program drawn from the seed by vlib/gramgen.py, one of %d option sets, file or inline source, include_grammar, calling thread) under a seeded "
+                 "(grammar from a 15-grammar corpus, one of 5 ill-formed grammars, or a grammar program drawn from the seed by vlib/gramgen.py, one of %d option sets, file or inline source, include_grammar, calling thread) under a seeded "
                  "environment vector (hash seed, clock, environment size, manifest root, cwd, short reads / EINTR on the grammar file, heap ballast); every expansion is compared "
                  "with the same expansion alone in a fresh neutral process. distinct_nontrivial = distinct (expansion key, environment class, history prefix, thread) tuples. "
                  "The same comparison is repeated through the real proc_macro bridge: generated crates with 1-5 derives are expanded by a real nightly rustc (-Zunpretty=expanded) "
